@@ -57,6 +57,20 @@ out["t2_1"] = canon(gs.mp_amplitude(1, "pphh", "ijab"))
 out["S2"] = canon(gs.overlap(2))
 m = SecularMatrix(IntermediateStates(gs, "pp"))
 out["M1"] = canon(m.isr_matrix_block(1, "ph,ph", "ia,jb"))
+# ground state densities: definition (one level / down to integrals) and the
+# perturbation theoretical order read from the configured name
+_i, _j, _a, _b = get_symbols("ijab")
+_dens = tensor_names.gs_density + "2"
+_poo = AntiSymmetricTensor(_dens, (_i,), (_j,), 1)
+_pvv = AntiSymmetricTensor(_dens, (_a,), (_b,), 1)
+out["p2_oo_once"] = canon_plain(Expr(_poo, target_idx="ij").expand_intermediates(fully_expand=False).sympy, "ij")
+out["p2_vv_once"] = canon_plain(Expr(_pvv, target_idx="ab").expand_intermediates(fully_expand=False).sympy, "ab")
+out["p2_oo_full"] = canon_plain(Expr(_poo, target_idx="ij").expand_intermediates().sympy, "ij")
+_pv = Expr(_poo * AntiSymmetricTensor(tensor_names.eri, (_i, _j), (_a, _b))).terms[0]
+out["p2_V_order"] = str(_pv.order)
+out["p2_longname_default"] = " ".join(o.longname(True) for o in _pv.objects)
+out["p2_longname"] = " ".join(o.longname() for o in _pv.objects)
+out["p2_V_latex"] = _pv.to_latex_str(spin_as_overbar=False)
 # requests whose explicitly named target indices belong to the name
 # generations the generic index pool is taken from (k3, c3, ...): an earlier
 # history must not make them reappear as summation indices
@@ -111,5 +125,5 @@ for t in Expr(gs.norm_factor(4)).expand().terms:
     if any(c != 2 for c in cnt.values()):
         out["norm4_indices_twice"] = False
 out["names"] = {"gs_amplitude": tensor_names.gs_amplitude, "eri": tensor_names.eri,
-                "fock": tensor_names.fock}
+                "fock": tensor_names.fock, "gs_density": tensor_names.gs_density}
 print("PROBE-JSON " + json.dumps(out))
